@@ -297,6 +297,23 @@ func RunCliNeg(c CliNegCase) harn.Result {
 			}
 			return err
 		}},
+		{"read_small", func(req *refwire.Msg) *refwire.Msg {
+			return &refwire.Msg{Kind: refwire.Rread, Tag: req.Tag, Blob: harn.Blob{N: int(req.Count), K: 9}}
+		}, func(ctx context.Context) error {
+			// a read that needs no clamping: its request frame (23 bytes) must still respect msize
+			n := agreed - 11
+			if n > 3 {
+				n = 3
+			}
+			if n < 0 {
+				n = 0
+			}
+			_, err := sess.Read(ctx, 1, make([]byte, n), 0)
+			return err
+		}},
+		{"write_small", func(req *refwire.Msg) *refwire.Msg {
+			return &refwire.Msg{Kind: refwire.Rwrite, Tag: req.Tag, Count: uint32(len(req.Data))}
+		}, func(ctx context.Context) error { _, err := sess.Write(ctx, 1, []byte{1}, 0); return err }},
 		{"write", func(req *refwire.Msg) *refwire.Msg {
 			return &refwire.Msg{Kind: refwire.Rwrite, Tag: req.Tag, Count: uint32(len(req.Data))}
 		}, func(ctx context.Context) error { _, err := sess.Write(ctx, 1, big, 0); return err }},
